@@ -18,7 +18,7 @@ RULE = ('trees = parser-produced Select/Union/Intersect/Except/Insert/Update/Del
         'templates + dedicated statements with every node kind in every position (CASE operand, function FROM-argument, window partitions, '
         'CTE bodies, tuples, casts, DML targets, VALUES rows); one replacement run per visit index; non-trivial = tree with >= 5 required '
         'nodes; distinct by multiset of (node class, field)')
-RULE += "; also: lists of 65-300 elements, abandoned traversals (raising visitor), replacement nodes of several kinds (NULL, 0, '', FALSE, empty tuple)"
+RULE += "; list replacements of select-list items (first / middle / last item, 2-3 nodes)" + "; also: lists of 65-300 elements, abandoned traversals (raising visitor), replacement nodes of several kinds (NULL, 0, '', FALSE, empty tuple)"
 ASSUMPTIONS = ['required set = nodes in expression / table / query positions (select-list items, FROM and JOIN operands, join conditions, WHERE, '
                'GROUP BY, HAVING, ORDER BY fields, function arguments incl. FROM-argument, CASE operand and branches, window partitions and '
                'orderings, cast arguments, tuple items, INSERT values, UPDATE SET values, CTE bodies, set-operation sides, subqueries, DML targets)',
@@ -301,6 +301,54 @@ def replacement_runs(text, dialect, acc, max_runs):
     return out
 
 
+def list_replacement_runs(text, dialect, acc):
+    """For a select-list item the walker also accepts a LIST of nodes (star expansion): the item is replaced by the listed nodes,
+    in order, in that position; the listed nodes are not statement nodes - the visitor is never called for them - and every other
+    node is visited exactly as in a run without replacement."""
+    from mindsdb_sql import parse_sql
+    from mindsdb_sql.planner.utils import query_traversal
+    from mindsdb_sql.parser.ast import Identifier, Select
+    out = []
+    base = parse_sql(text, dialect)
+    if not isinstance(base, Select) or not base.targets:
+        return out
+    for which in sorted({0, len(base.targets) // 2, len(base.targets) - 1}):
+        for n_new in (2, 3, 0):
+            tree = parse_sql(text, dialect)
+            tgt = tree.targets[which]
+            others_before = [id(x) for j, x in enumerate(tree.targets) if j != which]
+            new = [Identifier(parts=[f'NEW{j}']) for j in range(n_new)]
+            new_ids = {id(x) for x in new}
+            under_old = {id(o) for _, o in monitors.walk(tgt) if astnode(o)}
+            calls = []
+
+            def cb(node, **kw):
+                calls.append(id(node))
+                if node is tgt:
+                    return list(new)
+                return None
+            baseline = [id(n) for n, _, _ in record_traversal(tree) if astnode(n)]
+            try:
+                query_traversal(tree, cb)
+            except Exception as e:
+                out.append(({'defect': 'list-replacement-raises', 'etype': type(e).__name__}, {'target': which, 'error': str(e)[:120]}))
+                continue
+            acc.count('list_replacement_runs')
+            if n_new == 0:
+                continue        # an empty list: what it means is not stated anywhere; only "does not raise" is judged
+            got = [id(x) for x in tree.targets]
+            want = others_before[:which] + [id(x) for x in new] + others_before[which:]
+            if got != want:
+                out.append(({'defect': 'list-replacement-not-spliced-in-place', 'n': n_new}, {'target': which, 'targets_after': [repr(x)[:40] for x in tree.targets][:8]}))
+            if any(c in new_ids for c in calls):
+                out.append(({'defect': 'visitor-called-for-replacement-nodes', 'n': n_new}, {'target': which}))
+            expect = [i for i in baseline if i not in under_old or i == id(tgt)]
+            seen = [c for c in calls if c in set(baseline)]
+            if seen != expect:
+                out.append(({'defect': 'list-replacement-disturbs-other-visits', 'n': n_new}, {'target': which, 'visits': len(seen), 'expected': len(expect)}))
+    return out
+
+
 def run_shard(ctx):
     from mindsdb_sql import parse_sql
     acc = ctx.acc
@@ -361,6 +409,10 @@ def run_shard(ctx):
         for sig, det in fails:
             det.update({'text': text[:300]})
             acc.fail(sig, det)
+        if label == 'extra' or i % 6 == 3:
+            for sig, det in list_replacement_runs(text, 'mindsdb', acc):
+                det.update({'text': text[:300]})
+                acc.fail(sig, det)
         if label == 'extra' or i % 6 == 0:
             for sig, det in replacement_runs(text, 'mindsdb', acc, 12 if ctx.tier == 'quick' else 40):
                 det.update({'text': text[:300]})
